@@ -31,7 +31,9 @@ Inductive wphase :=
 | WSave (cp : nat)       (* Write returned: cur.State + saveState pending *)
 | WCheck (cp : nat)      (* si.Get after saveState: more data or EOF? *)
 | WWait (cp : nat)       (* cur.WaitNewData(10 s) *)
-| WDone.                 (* deferred workerDone pending *)
+| WDone                  (* deferred workerDone pending *)
+| WRetry (cp : nat).     (* Journals.Write returned an error at source record cp (the records before it are stored, cp
+                            is the cursor's current record, no saveState): context2.Sleep(werrs seconds), then `continue` *)
 
 Record st := {
   log : list event;          (* the source journal (everything appended) *)
@@ -52,7 +54,11 @@ Inductive label :=
 | LWork                         (* the worker goroutine executes up to its next lock / journal call *)
 | LTimeout                      (* the 10 s timer of WaitNewData fires *)
 | LDelete                       (* DeletePipe + ppipe.delete *)
-| LRestart.                     (* clean stop + start; taken only in quiescent states *)
+| LRestart                      (* clean stop + start; taken only in quiescent states *)
+| LRefuse (save : bool).        (* the destination refuses the record the worker is handing over (Journals.Write returns an
+                                   error: e.g. the record with the provenance fields exceeds MaxRecordSize); save = does the
+                                   worker save the position it reached before it sleeps (true = the code since the
+                                   repair of worker.run, see code_saves_on_refused_write) *)
 
 Definition upd_log (s : st) l := {| log := l; cfrm := cfrm s; infl := infl s; queue := queue s; desc := desc s; wrk := wrk s; dst := dst s; alive := alive s |}.
 Definition upd_cfrm (s : st) c := {| log := log s; cfrm := c; infl := infl s; queue := queue s; desc := desc s; wrk := wrk s; dst := dst s; alive := alive s |}.
@@ -137,6 +143,29 @@ Definition work_step (af : bool) (tags : list (bytes * bytes)) (s : st) : st :=
       if alive s then (if cp <? cfrm s then upd_wrk s (Some (WCopy cp)) else s)
       else upd_wrk s (Some WDone)
   | Some WDone => worker_done s
+  | Some (WRetry cp) =>
+      (* the sleep is over (or the context was cancelled): `continue`, the loop condition, Journals.Write again *)
+      if alive s then upd_wrk s (Some (WCopy cp)) else upd_wrk s (Some WDone)
+  end.
+
+(* Journals.Write fails at the record the worker is about to hand over *)
+Definition refuse_step (af : bool) (save : bool) (s : st) : st :=
+  match wrk s with
+  | Some (WCopy cp) =>
+      if cp <? cfrm s then
+        match nth_error (log s) cp with
+        | Some e =>
+            if passes af e then
+              match desc s with
+              | Some d =>
+                  upd_dw s (Some (if save then {| p_pos := cp; p_lkp := p_lkp d; p_chg := p_chg d |} else d)) (Some (WRetry cp))
+              | None => upd_wrk s (Some (WRetry cp))
+              end
+            else s   (* siterator skips a record the filter rejects: it is never handed over *)
+        | None => s
+        end
+      else s
+  | _ => s
   end.
 
 (* nothing in flight, everything readable, worker absent or asleep at the end *)
@@ -186,6 +215,7 @@ Definition step (af : bool) (tags : list (bytes * bytes)) (s : st) (l : label) :
                   | None => None
                   end) None
       else s
+  | LRefuse save => refuse_step af save s
   end.
 
 Fixpoint run (af : bool) (tags : list (bytes * bytes)) (s : st) (sched : list label) : st :=
@@ -226,6 +256,36 @@ Definition recreate_v (survives : bool) (s : st) : st :=
    survives = false is the code: saveState returns NotFound for a deleted pipe, the removal is final. *)
 Definition code_state_survives_delete : bool := false.
 Definition recreate (s : st) : st := recreate_v code_state_survives_delete s.
+
+(* The source partition was deleted (TRUNCATE removes a partition whose chunks are all gone when nothing holds it: no
+   cursor, no worker) and the pipes cleaner (Service.pipesCleaner -> ppipe.cleanPartitions) dropped its descriptor; a
+   partition created later with the same tags is a new journal (new source id), of which the pipe knows nothing. The
+   destination keeps what was copied. *)
+Definition drop_source (s : st) : st :=
+  {| log := []; cfrm := 0; infl := []; queue := []; desc := None; wrk := None; dst := dst s; alive := alive s |}.
+
+(* the same state with d0 in front of the destination *)
+Definition add_dst (d0 : list devent) (s : st) : st := upd_dst s (d0 ++ dst s).
+
+(* does the worker save the position it reached when the destination write failed? (worker.run: `continue` without
+   saveState = false; since the repair of worker.run it saves the position the cursor reached) *)
+Definition code_saves_on_refused_write : bool := true.
+Definition code_refuse : label := LRefuse code_saves_on_refused_write.
+
+(* A clean stop + start while the worker sleeps between two attempts (nothing in flight, everything readable): the
+   context is cancelled, the worker leaves without saving, the descriptor comes back from the file with wCharged false.
+   (Not a label: like every restart outside a quiescent point it can leave an idle descriptor behind LastKnwnPos.) *)
+Definition stop_retrying (s : st) : st :=
+  match wrk s, infl s, queue s with
+  | Some (WRetry _), [], [] =>
+      if alive s && (cfrm s =? length (log s)) then
+        upd_dw s (match desc s with
+                  | Some d => Some {| p_pos := p_pos d; p_lkp := p_lkp d; p_chg := false |}
+                  | None => None
+                  end) None
+      else s
+  | _, _, _ => s
+  end.
 
 (* what the property asks the destination to hold for this source *)
 Definition expected (tags : list (bytes * bytes)) (base : nat) (l : list event) : list devent :=
